@@ -518,6 +518,8 @@ def build_node(emd, made, nd):
         md = mc(name=m['name'])
         md['v'] = m['v']
         o.metadata = md
+        if m['v'] % 3 == 0:
+            md.name = m['name'] + '_renamed'       # renamed after it was attached: stored under its key, as an instance of its class
     return o
 
 
@@ -582,6 +584,8 @@ def run_e2e(sc, scratch):
         mc = made[m['cls']] if m['cls'] is not None else emd.Metadata
         md = mc(name=m['name']); md['v'] = m['v']
         root.metadata = md
+        if m['v'] % 3 == 0:
+            md.name = m['name'] + '_renamed'
     byspec = {}
 
     def add(parent, nd, path):
